@@ -67,8 +67,18 @@ class AodRecorder:
             pass
         self.NativeError = NativeError
 
+        from gen import native_filled as NF
+
         def _grid(g):
+            # a filled grid of the native evaluation becomes the library's class here, by its constructor alone
+            if isinstance(g, NF.NativeFilled):
+                return g.real()
             if not isinstance(g, Grid):
+                raise NativeError("not a grid")
+            return g
+
+        def _geo(g):
+            if not isinstance(g, (Grid, NF.NativeFilled)):
                 raise NativeError("not a grid")
             return g
 
@@ -93,18 +103,28 @@ class AodRecorder:
         grid = pytypes.SimpleNamespace(
             Grid=Grid,
             from_positions=lambda xs, ys: Grid.from_positions(x_positions=xs, y_positions=ys),
-            shift=lambda g, dx, dy: _grid(g).shift(_f(dx), _f(dy)),
-            scale=lambda g, sx, sy: _grid(g).scale(_f(sx), _f(sy)),
-            repeat=lambda g, nx, ny, gx, gy: _grid(g).repeat(nx, ny, _f(gx), _f(gy)),
-            sub_grid=lambda g, xs, ys: _grid(g).get_view(_il(xs), _il(ys)),
-            shape=lambda g: _grid(g).shape,
+            shift=lambda g, dx, dy: _geo(g).shift(_f(dx), _f(dy)),
+            scale=lambda g, sx, sy: _geo(g).scale(_f(sx), _f(sy)),
+            repeat=lambda g, nx, ny, gx, gy: _geo(g).repeat(nx, ny, _f(gx), _f(gy)),
+            sub_grid=lambda g, xs, ys: _geo(g).get_view(_il(xs), _il(ys)),
+            shape=lambda g: _geo(g).shape,
+            get_xpos=lambda g: ilist.IList(list(_geo(g).x_positions)), get_ypos=lambda g: ilist.IList(list(_geo(g).y_positions)),
         )
+
+        def _parent(g):
+            if not isinstance(g, NF.NativeFilled):
+                raise NativeError("filled grid expected")
+            return g.parent
+        filled = pytypes.SimpleNamespace(
+            vacate=lambda g, l: NF.vacate(_geo(g), list(l)), fill=lambda g, l: NF.fill(_geo(g), list(l)), get_parent=_parent,
+            shift=lambda g, dx, dy: _geo(g).shift(_f(dx), _f(dy)), scale=lambda g, a, b: _geo(g).scale(_f(a), _f(b)),
+            repeat=lambda g, a, b, c, d: _geo(g).repeat(a, b, _f(c), _f(d)))
 
         def _lookup(table, key, what):
             v = table.get(key)
             if v is None:
                 raise NativeError(f"{what} {key} not found")
-            return v
+            return NF.wrap(v)
 
         spec = pytypes.SimpleNamespace(
             get_static_trap=lambda *, zone_id: _lookup(S.layout.static_traps, zone_id, "zone"),
@@ -112,5 +132,5 @@ class AodRecorder:
             get_int_constant=lambda *, constant_id: _lookup(S.int_constants, constant_id, "int"),
             get_float_constant=lambda *, constant_id: _lookup(S.float_constants, constant_id, "float"),
         )
-        self.ns = dict(action=action, grid=grid, spec=spec, ilist=ilist, Any=Any,
+        self.ns = dict(action=action, grid=grid, spec=spec, filled=filled, ilist=ilist, Any=Any,
                        tweezer=lambda f=None, **kw: (f if f is not None else (lambda g: g)))
